@@ -69,6 +69,10 @@ def make_code(rng, tabs=0, final_newline=True, nested=False):
             body += rng.choice((b'#include nested%d.lua\n' % rng.randrange(9), b'#include \x8e\x97%d.lua\n' % rng.randrange(9),
                                 b'--[[\n#include \x99\xe3lib.p8\n]]\n'))
         if rng.random() < 0.3:
+            # the text `-->8` at the end of a line of code, or after blanks, is a remark: only a line BEGINNING with it divides tabs
+            body += rng.choice((b'spr(t,x*8,y*8) -->8x8 pixel tiles\n', b'w=8 -->8\n', b' -->8 indented\n', b'n-=1 --> 8\n', b'\t-->8\n',
+                                b's="\\\n-->8"\n' if False else b'x=1--[[ -->8 ]]\n'))
+        if rng.random() < 0.3:
             # tokens that span lines: a long string, a block comment (a quoted string continued by backslash-newline may be re-spelled by
             # the writer an included cart's code passes through, C06, so it is left to that check)
             body += rng.choice((b'txt=[[first\n second\n\nfourth]]\n', b'--[==[ note\n over\n lines ]==]\n', b'help=[=[\n]=] x=1\n',
@@ -147,8 +151,11 @@ def build_case(rng, root):
                     fragment = 'function_opened' if code.startswith(b'function') else 'long_string_text'
             else:
                 kind = rng.choice(('lua', 'lua', 'p8', 'p8', 'png'))
-                sub = rng.choice(('', '', 'lib/', 'lib/deep/'))
-                stem = rng.choice(('inc', 'mod_', 'T', 'cart.p8.v', 'tools.lua.x', 'a.p8.png.b', 'lvl[1]_', 'q?x', 'st*r', 'set{a,b}'))
+                # (a directory or a file whose name BEGINS with dots is a name like any other: `..shared/`, `..cfg`, `...x`)
+                sub = rng.choice(('', '', 'lib/', 'lib/deep/', '..shared/', 'lib/..x/', '.hidden/'))
+                stem = rng.choice(('inc', 'mod_', 'T', 'cart.p8.v', 'tools.lua.x', 'a.p8.png.b', 'lvl[1]_', 'q?x', 'st*r', 'set{a,b}', '..cfg', '...x', '.env'))
+                if sub.split('/')[-2:-1] in (['..shared'], ['..x'], ['.hidden']) or stem.startswith('.'):
+                    feats.add('name_beginning_with_dots')
                 name = '%s%s%d' % (sub, stem, inc_i)
                 if stem in ('lvl[1]_', 'q?x', 'st*r', 'set{a,b}'):
                     # characters that mean something to file-name patterns are characters of the name; a file such a pattern would
@@ -463,7 +470,7 @@ def gates(m, tier):
               'directive_whitespace_variant', 'missing_target', 'png_raw', 'png_compressed', 'includes_0', 'same_target_twice', 'cart_inside_carts_folder', 'name_with_embedded_extension', 'include_inside_block_comment',
               'cart_opened_through_symlinked_directory', 'lua_target_with_high_bytes', 'tab_selector_two_digits', 'cart_opened_as_bare_name_in_cwd',
               'cart_opened_as_dot_slash_in_cwd', 'cart_opened_as_relative_from_parent', 'line_mentioning_include', 'mentioned_file_exists', 'blank_own_lines', 'selector_after_lua_name', 'included_p8_no_lua_section', 'included_p8_empty_lua_section', 'included_p8_in_variant_shape', 'missing_target_with_sibling_of_other_format',
-              'name_not_in_normal_form', 'name_with_pattern_characters', 'cart_includes_its_own_tab', 'lua_target_that_is_a_fragment:function_opened', 'lua_target_that_is_a_fragment:long_string_text'):
+              'name_not_in_normal_form', 'name_with_pattern_characters', 'name_beginning_with_dots', 'cart_includes_its_own_tab', 'lua_target_that_is_a_fragment:function_opened', 'lua_target_that_is_a_fragment:long_string_text'):
         if f.get(k, 0) < 5:
             missed.append('%s seen %d times' % (k, f.get(k, 0)))
     if mon.get('splices_compared', 0) < 200:
